@@ -49,6 +49,14 @@ CHECKS.update({
          "Seeded programs of Put/Delete/Get/rotation/compaction-cycle/Close+re-Open (new options each session) run against the real database; every read is compared with a map, every rotation, compaction and reopen is followed by a full read-back, and a child killed by log.Panicf in the flusher or compactor is a violation. Exploration: the schedules are those the program places (driven) or the scheduler/ticker produce (live).",
          "valid keys/values only; live schedules are not enumerated, only sampled", "§3 C01", "E1"),
 })
+CHECKS.update({
+ "C06": ("exploration", "reference-model monitor + tag-guarded single-cycle helper: read-all before/after every compaction cycle over built table lineages; selection checked as a contiguous run of the live table list",
+         "Lineages of real tables with controlled sizes and tombstone ratios (tombstones over older, larger values; size- and ratio-selected tables around an unselected one) are built through forced rotations; every compaction cycle is bracketed by a read of all keys (identical before/after and equal to the map), its selection must be a gap-free run in age order replaced in the slot of its oldest member; settings are redrawn at reopens.",
+         "selection policy itself is not judged, only gap-freeness and placement", "§3 C06", "E1"),
+ "C17": ("exploration", "differential monitor (string-API database vs byte-API database) + reference map that ignores rejected calls, observed directly / after rotation+flush / after clean reopen; sessions with a WAL that cannot append (direct I/O without async) as a source of I/O errors",
+         "The same seeded program with nil/empty/non-UTF-8/64 KiB arguments runs against two databases through the two API flavours; decisions and results must agree, rejected calls must leave no trace at any observation point, and reads must not change across flush or restart. Crash-image observation is provided by the C02 engine (C17 crash cases).",
+         "nil byte slices correspond to empty strings; empty-key Delete only required to be invisible", "§3 C17", "E1"),
+})
 NOT_YET = {}
 props = [json.loads(l) for l in open(os.path.join(ROOT, "properties.jsonl"))]
 hooks_commits = []
